@@ -106,7 +106,8 @@ Definition case_facing (a : list Q) : list Q :=
    in : 0 pos (3) | 3 parent (6) | 9 P (3) | 12 away (0/1) | 13 yaw | 15 pitch | 17 roll (as chosen by the
         implementation) | 19 rho | 20 H (apparently facing) 
    out: sight in the parent frame (3) | q (4) | yaw relation: res, dot | sight - rho*sph_dir yaw pitch (3)
-        | apparently-facing relation (yaw - H vs azimuth of pos - P): res, dot *)
+        | apparently-facing relation, global frame (yaw - H vs azimuth of pos - P; the code before the repair): res, dot
+        | apparently-facing relation, parent frame (yaw - H vs azimuth of parent^-1 (pos - P); repaired): res, dot *)
 Definition case_toward (a : list Q) : list Q :=
   let pos := gv a 0 in let parent := ge a 3 in let p := gv a 9 in
   let away := match code a 12 with O => false | _ => true end in
@@ -116,7 +117,9 @@ Definition case_toward (a : list Q) : list Q :=
   ov sl ++ oq (orientation_of Qo parent yaw pitch roll)
   ++ [turn_res Qo yaw (north Qo) (xy sl); turn_dot Qo yaw (north Qo) (xy sl)]
   ++ ov (vsub Qo sl (vscale Qo (g a 19) (sph_dir Qo yaw pitch)))
-  ++ [turn_res Qo d (north Qo) (xy (vsub Qo pos p)); turn_dot Qo d (north Qo) (xy (vsub Qo pos p))].
+  ++ [turn_res Qo d (north Qo) (xy (vsub Qo pos p)); turn_dot Qo d (north Qo) (xy (vsub Qo pos p))]
+  ++ [turn_res Qo d (north Qo) (xy (sight_local Qo parent pos p true));
+      turn_dot Qo d (north Qo) (xy (sight_local Qo parent pos p true))].
 
 (* kind 6 — scalar operators.
    in : 0 A (3) | 3 B (3) | 6 n = distance | 7 al = angle | 9 ph = altitude | 11 m = hypot(dx,dy)
